@@ -111,9 +111,11 @@ theorem C02_shared_follow_after_mutate (c : Choice) (a : Agent) (h : Inv a)
   exact finish_sharedWeights c.fresh (c.stamp + 1) _ pre.1 pre.2 hk
 
 /-- **Critics follow the policy.**  After an architecture mutation module `j` of every evaluation
-    network — the policy and every network trained alongside it — carries the method that was
-    applied to module `j` of the policy (`applied[j]`, `none` when nothing was applied). -/
-theorem C02_arch_followed (f : Bool) (applied : List (Option String)) (fresh : Fresh) (stamp : Nat) (a : Agent)
+    network — the policy and every network trained alongside it — carries the change that was
+    applied to module `j` of the policy (`applied[j]` = method *and* the resulting change of the
+    architecture, i.e. the arguments the policy's module drew; `none` when nothing was applied).
+    For multi-agent algorithms `j` is the sub-agent: critic `j` follows actor `j`, not actor 0. -/
+theorem C02_arch_followed (f : Bool) (applied : List (Option Change)) (fresh : Fresh) (stamp : Nat) (a : Agent)
     (k : Nat) (n : NetAttr)
     (hk : (mutate1 f { kind := Kind.arch applied, fresh := fresh, stamp := stamp } a).nets[k]? = some n)
     (he : n.role.isEval = true) :
@@ -228,7 +230,7 @@ example : HookOK (roles td3.nets) td3.hook := by
 /-- three generations (select, mutate with a different kind per agent, learn) on [TD3-like, TD3-like] -/
 def history : List Op :=
   [ .select [{ parent := 0, index := 2, fresh := td3Fresh, stamp := 5 }, { parent := 0, index := 3, fresh := td3Fresh, stamp := 6 }],
-    .mutate [{ kind := .arch [some "encoder.add_node"], fresh := td3Fresh, stamp := 7 }, hpChoice],
+    .mutate [{ kind := .arch [some ("encoder.add_node", "hidden_size:+16")], fresh := td3Fresh, stamp := 7 }, hpChoice],
     .learn 0 9, .learn 1 10,
     .select [{ parent := 1, index := 4, fresh := td3Fresh, stamp := 11 }, { parent := 0, index := 5, fresh := td3Fresh, stamp := 12 }],
     .mutate [{ kind := .param, stamp := 13, fresh := td3Fresh }, { kind := .act, stamp := 15, fresh := td3Fresh }],
